@@ -247,8 +247,12 @@ theorem WTied.itUpd {w w' : World} (h : WTied w) (i : Nat) (e : ITE) (s : Store)
     obtain ⟨s', hs', hok'⟩ := h.iters j e' hj
     by_cases hc : e'.cif = e.cif
     · rw [hc, hs] at hs'; cases hs'
-      refine ⟨(updatePacket s e.it p).1, ?_, updatePacket_iterOk s e.it p e'.it hok'⟩
-      unfold liveC; rw [hcifs, hc]; exact liveC_set_self w e.cif s _ hs
+      have hje : j = i := h.one j i e' e hj (liveI_its hl) hc
+      subst hje
+      have : e' = e := by have h1 := liveI_its hl; rw [hj] at h1; cases h1; rfl
+      subst this
+      refine ⟨(updatePacket s e'.it p).1, ?_, updatePacket_iterOk s e'.it p hok'⟩
+      unfold liveC; rw [hcifs]; exact liveC_set_self w e'.cif s _ hs
     · refine ⟨s', ?_, hok'⟩
       unfold liveC at hs' ⊢
       rw [hcifs, getD_set_ne' _ _ _ _ hc]; exact hs'
